@@ -3,6 +3,7 @@ package msgpack
 import (
 	"bytes"
 	"math"
+	"unicode/utf8"
 
 	"github.com/vmihailenco/msgpack/v5"
 	msgpackCodes "github.com/vmihailenco/msgpack/v5/msgpcode"
@@ -128,6 +129,11 @@ func unmarshalPrimitive(dec *msgpack.Decoder, ty cty.Type, path cty.Path) (cty.V
 		if err != nil {
 			return cty.DynamicVal, path.NewErrorf("string is required")
 		}
+		if !utf8.ValidString(rv) {
+			// cty strings are sequences of unicode characters, so
+			// StringVal requires valid UTF-8.
+			return cty.DynamicVal, path.NewErrorf("string is not valid UTF-8")
+		}
 		return cty.StringVal(rv), nil
 	default:
 		// should never happen
@@ -230,6 +236,9 @@ func unmarshalMap(dec *msgpack.Decoder, ety cty.Type, path cty.Path) (cty.Value,
 		key, err := dec.DecodeString()
 		if err != nil {
 			path[:len(path)-1].NewErrorf("non-string key in map")
+		}
+		if !utf8.ValidString(key) {
+			return cty.DynamicVal, path[:len(path)-1].NewErrorf("map key is not valid UTF-8")
 		}
 
 		path[len(path)-1] = cty.IndexStep{
